@@ -109,6 +109,9 @@ pub fn run_c19(cases: usize, max_n: usize, seed: u64, threads: usize, timeout: D
     seedb[8] = 19;
     let mut runner = TestRunner::new_with_rng(Config::default(), TestRng::from_seed(RngAlgorithm::ChaCha, &seedb));
     let mut all: Vec<BigCase> = extra;
+    if cases > 0 {
+        all.extend(corner_cases(max_n));
+    }
     for _ in 0..cases {
         let bytes = strategy.new_tree(&mut runner).unwrap().current();
         all.push(decode_big(&bytes, max_n));
@@ -151,7 +154,7 @@ pub fn run_c19(cases: usize, max_n: usize, seed: u64, threads: usize, timeout: D
                 run.max_jobs = run.max_jobs.max(r.jobs);
                 run.max_depth = run.max_depth.max(r.depth);
                 *run.by_cascade.entry(CASCADES[c.cascade as usize % 6].to_string()).or_insert(0) += 1;
-                *run.by_shape.entry(SHAPES[c.shape as usize % 5].to_string()).or_insert(0) += 1;
+                *run.by_shape.entry(SHAPES[c.shape as usize % 6].to_string()).or_insert(0) += 1;
                 if r.jobs > 60 {
                     run.distinct.insert((c.shape, c.pattern, c.cascade, bucket(r.jobs)));
                 }
@@ -197,6 +200,29 @@ pub fn run_c19(cases: usize, max_n: usize, seed: u64, threads: usize, timeout: D
         });
     }
     run
+}
+
+/// the boundary of the size domain, enumerated: every shape at the largest size of the tier x
+/// every cascade x three kind patterns (random cases seldom hit "largest width AND this cascade")
+pub fn corner_cases(max_n: usize) -> Vec<BigCase> {
+    let mut v = vec![];
+    for shape in 0u8..6 {
+        let (n, width) = match shape {
+            1 => (max_n, ((max_n as f64).sqrt() as usize).max(2)),
+            2 => (max_n.min(6000), 1),
+            5 => {
+                let w = (max_n / 20).clamp(20, 400);
+                (1 + 3 * w, w)
+            }
+            _ => (max_n, 1),
+        };
+        for cascade in 0u8..6 {
+            for pattern in [0u8, 5, 2] {
+                v.push(BigCase { shape, n, width, pattern, period: 1, salt: cascade, cascade, coarse_every: 0, stamps: false, consumed: false, outnames: false });
+            }
+        }
+    }
+    v
 }
 
 pub fn big_replay_files() -> Vec<std::path::PathBuf> {
